@@ -790,6 +790,18 @@ public:
         if (B->getMemberDecl()->getName().empty())
           return path(B->getBase()) + (B->isArrow() ? "->" : ".") +
                  X->getMemberDecl()->getNameAsString();
+      if (!X->isArrow()) {
+        // (*p).m is spelled p->m
+        const Expr* BB = strip(X->getBase());
+        if (auto* U = dyn_cast_or_null<UnaryOperator>(BB))
+          if (U->getOpcode() == UO_Deref)
+            return path(U->getSubExpr()) + "->" +
+                   X->getMemberDecl()->getNameAsString();
+        if (auto* OC = dyn_cast_or_null<CXXOperatorCallExpr>(BB))
+          if (OC->getOperator() == OO_Star && OC->getNumArgs() == 1)
+            return path(OC->getArg(0)) + "->" +
+                   X->getMemberDecl()->getNameAsString();
+      }
       std::string b = path(X->getBase());
       return b + (X->isArrow() ? "->" : ".") +
              X->getMemberDecl()->getNameAsString();
